@@ -89,10 +89,10 @@ def opMcSim (a : Args) : Except String String := do
   let nb := bcols.length
   if base.length ≠ n * nb then throw "bad-arg:base"
   let baseA := base.toArray
-  let bases : List (Env Rat) := (List.range n).map fun u => fun j =>
+  let bases : List (Env Rat) := (List.range n).map fun u => ⟨fun j =>
     match bcols.idxOf? j with
     | some p => baseA.getD (u * nb + p) 0
-    | none => 0
+    | none => 0⟩
   let nsteps ← nats a "nsteps"
   if nsteps.length ≠ n then throw "bad-arg:nsteps"
   let ncov := covs.length
